@@ -80,6 +80,9 @@ impl<'a> Iterator for Params<'a> {
                     ));
                 }
                 self.input = rest;
+            } else if !rest.is_empty() {
+                // new-params-bound flag is clear: skip it, and reuse the types bound earlier
+                self.input = &rest[1..];
             }
         }
 
